@@ -4,6 +4,7 @@ import (
 	"go/ast"
 	"go/types"
 	"math/big"
+	"strings"
 )
 
 var u64t = machType(types.Typ[types.Uint64])
@@ -69,15 +70,24 @@ func (ex *Exec) callStd(full string, fobj *types.Func, args []Value, e *ast.Call
 		ex.st.addFact(Eq(Add(Mul(IntC(W64), hi), lo), prod), "Mul64@"+ex.where(e))
 		ex.noteMulDiscard(e, hi, lo)
 		return TupleV{hi, lo}
-	case "(encoding/binary.bigEndian).Uint64":
+	case "(encoding/binary.bigEndian).Uint64", "(encoding/binary.bigEndian).Uint32", "(encoding/binary.bigEndian).Uint16",
+		"(encoding/binary.littleEndian).Uint64", "(encoding/binary.littleEndian).Uint32", "(encoding/binary.littleEndian).Uint16":
+		n := binWidth(full)
 		s := args[1].(SliceV)
-		if s.Len < 8 {
-			ex.oblige("safety", "BigEndian.Uint64@"+ex.where(e), BoolC(false), "short slice")
+		if s.Abs != nil || s.SymLen != nil {
+			ex.unsupported("binary.%s of a slice of unknown length at %s", full, ex.where(e))
+		}
+		if s.Len < n {
+			ex.oblige("safety", "binary.Uint@"+ex.where(e), BoolC(false), "short slice")
 			panic(pathEnd{"short slice"})
 		}
-		bs := make([]*Term, 8)
+		bs := make([]*Term, n)
 		for i := range bs {
-			bs[i] = s.Obj.Cells[s.Off+i].(*Term)
+			j := i
+			if strings.Contains(full, "littleEndian") {
+				j = n - 1 - i
+			}
+			bs[i] = ex.resolve(s.Obj.Cells[s.Off+j]).(*Term)
 		}
 		if ex.mode.BV {
 			t := bs[0]
@@ -88,48 +98,49 @@ func (ex *Exec) callStd(full string, fobj *types.Func, args []Value, e *ast.Call
 		}
 		var parts []*Term
 		for i, b := range bs {
-			parts = append(parts, Mul(IntC(pow2(8*(7-i))), b))
+			parts = append(parts, Mul(IntC(pow2(8*(n-1-i))), b))
 		}
 		return Add(parts...)
-	case "(encoding/binary.bigEndian).PutUint64", "(encoding/binary.bigEndian).PutUint16":
-		n := 8
-		if full[len(full)-2:] == "16" {
-			n = 2
-		}
+	case "(encoding/binary.bigEndian).PutUint64", "(encoding/binary.bigEndian).PutUint32", "(encoding/binary.bigEndian).PutUint16",
+		"(encoding/binary.littleEndian).PutUint64", "(encoding/binary.littleEndian).PutUint32", "(encoding/binary.littleEndian).PutUint16":
+		n := binWidth(full)
 		s := args[1].(SliceV)
 		v := args[2].(*Term)
+		if s.Abs != nil || s.SymLen != nil {
+			ex.unsupported("binary.%s into a slice of unknown length at %s", full, ex.where(e))
+		}
 		if s.Len < n {
 			ex.oblige("safety", "BigEndian.Put@"+ex.where(e), BoolC(false), "short slice")
 			panic(pathEnd{"short slice"})
 		}
-		if !ex.mode.BV && !v.IsConst() && n > 2 {
-			// byte decomposition: fresh bytes b_i in [0,256) with sum b_i*256^(n-1-i) == v mod 2^(8n) (unique)
-			var parts []*Term
-			for i := 0; i < n; i++ {
-				b := ex.freshWord("byte", u8t)
-				s.Obj.Cells[s.Off+i] = b
-				parts = append(parts, Mul(IntC(pow2(8*(n-1-i))), b))
-			}
-			val := v
-			if ub := ex.upper(v); ub == nil || ub.Cmp(pow2(8*n)) > 0 {
-				val = Mod(v, IntC(pow2(8*n)))
-			}
-			ex.st.addFact(Eq(Add(parts...), val), "PutUint@"+ex.where(e))
-			ex.noteWrite(s.Obj, s.Off, n)
-			return nil
-		}
+		bs := ex.wordBytes(v, n, e)
 		for i := 0; i < n; i++ {
-			var b *Term
-			sh := 8 * (n - 1 - i)
-			if ex.mode.BV {
-				b = Extract(v, sh+7, sh)
-			} else {
-				b = Mod(Div(v, IntC(pow2(sh))), IntI(256))
+			j := i
+			if strings.Contains(full, "littleEndian") {
+				j = n - 1 - i
 			}
-			s.Obj.Cells[s.Off+i] = b
+			s.Obj.Cells[s.Off+j] = bs[i]
 		}
 		ex.noteWrite(s.Obj, s.Off, n)
 		return nil
+	case "(encoding/binary.bigEndian).AppendUint64", "(encoding/binary.bigEndian).AppendUint32", "(encoding/binary.bigEndian).AppendUint16",
+		"(encoding/binary.littleEndian).AppendUint64", "(encoding/binary.littleEndian).AppendUint32", "(encoding/binary.littleEndian).AppendUint16":
+		n := binWidth(full)
+		s := args[1].(SliceV)
+		v := args[2].(*Term)
+		if s.Abs != nil || s.SymLen != nil {
+			ex.unsupported("binary.%s onto a slice of unknown length at %s", full, ex.where(e))
+		}
+		bs := ex.wordBytes(v, n, e)
+		add := make([]Value, n)
+		for i := 0; i < n; i++ {
+			j := i
+			if strings.Contains(full, "littleEndian") {
+				j = n - 1 - i
+			}
+			add[j] = bs[i]
+		}
+		return ex.appendConcrete(s, add, types.Typ[types.Uint8], e)
 	case "crypto/subtle.ConstantTimeSelect":
 		v, x, y := args[0].(*Term), args[1].(*Term), args[2].(*Term)
 		it := machType(types.Typ[types.Int])
@@ -154,6 +165,44 @@ func (ex *Exec) callStd(full string, fobj *types.Func, args []Value, e *ast.Call
 		return nil
 	}
 	return ex.callStd2(full, fobj, args, e)
+}
+
+func binWidth(full string) int {
+	switch {
+	case strings.HasSuffix(full, "64"):
+		return 8
+	case strings.HasSuffix(full, "32"):
+		return 4
+	}
+	return 2
+}
+
+// wordBytes returns the n big-endian bytes of the n-byte word v.
+func (ex *Exec) wordBytes(v *Term, n int, e ast.Node) []*Term {
+	out := make([]*Term, n)
+	if !ex.mode.BV && !v.IsConst() && n > 2 {
+		// byte decomposition: fresh bytes b_i in [0,256) with sum b_i*256^(n-1-i) == v mod 2^(8n) (unique)
+		var parts []*Term
+		for i := 0; i < n; i++ {
+			out[i] = ex.freshWord("byte", u8t)
+			parts = append(parts, Mul(IntC(pow2(8*(n-1-i))), out[i]))
+		}
+		val := v
+		if ub := ex.upper(v); ub == nil || ub.Cmp(pow2(8*n)) > 0 {
+			val = Mod(v, IntC(pow2(8*n)))
+		}
+		ex.st.addFact(Eq(Add(parts...), val), "PutUint@"+ex.where(e))
+		return out
+	}
+	for i := 0; i < n; i++ {
+		sh := 8 * (n - 1 - i)
+		if ex.mode.BV {
+			out[i] = Extract(v, sh+7, sh)
+		} else {
+			out[i] = Mod(Div(v, IntC(pow2(sh))), IntI(256))
+		}
+	}
+	return out
 }
 
 func (ex *Exec) carryOK(c *Term, e ast.Node) {
